@@ -4,7 +4,9 @@ import (
 	"bytes"
 	"fmt"
 	"math/rand"
+	"os"
 	"sort"
+	"strconv"
 	"strings"
 	"sync"
 	"time"
@@ -309,7 +311,17 @@ func (g *c14gen) mutate(kind string) (*Topo, string) {
 	case "flag-master-fail":
 		if len(ms) > 3 {
 			a := pickM()
-			a.Flags = "fail"
+			switch rng.Intn(4) {
+			case 0:
+				a.Flags = "fail"
+			case 1:
+				a.Flags = "handshake"
+			case 2:
+				a.Link = "disconnected"
+			default:
+				a.Flags = "noaddr"
+				a.Addr = ":0"
+			}
 		}
 	case "flag-replica":
 		for _, tn := range t.Nodes {
@@ -379,6 +391,9 @@ var (
 // c14nextKind deals transition kinds from a shared shuffled deck, so that a
 // run covers every kind before repeating any (whatever the number of lanes).
 func c14nextKind(rng *rand.Rand) string {
+	if k := os.Getenv("C14_KIND"); k != "" {
+		return k
+	}
 	c14deckMu.Lock()
 	defer c14deckMu.Unlock()
 	if len(c14deck) == 0 {
@@ -408,12 +423,13 @@ func c14unusable(kind string, cur *Topo) func(n *Node) []byte {
 	case "empty-bulk":
 		return func(*Node) []byte { return BulkReply([]byte{}) }
 	case "oversized":
+		var pad strings.Builder
+		for i := 0; pad.Len() <= 163840; i++ {
+			fmt.Fprintf(&pad, "%040x 10.9.9.9:7000@17000 slave,fail %040x 0 0 1 connected\n", i, 1)
+		}
+		padding := pad.String()
 		return func(n *Node) []byte {
-			txt := cur.Text(n)
-			for len(txt) <= 163840 {
-				txt += fmt.Sprintf("%040x 10.9.9.9:7000@17000 slave,fail %040x 0 0 1 connected\n", len(txt), 1)
-			}
-			return BulkReply([]byte(txt))
+			return BulkReply([]byte(cur.Text(n) + padding))
 		}
 	case "garbage":
 		return func(*Node) []byte {
@@ -574,12 +590,20 @@ func runC14(c *Check, rng *rand.Rand) {
 		"every listed, connected, unflagged node is reachable in these histories",
 	}
 	lanes := c.Pick(4, 12)
+	if v, err := strconv.Atoi(os.Getenv("C14_LANES")); err == nil && v > 0 {
+		lanes = v
+	}
 	steps := c.Pick(7, 25)
 	var wg sync.WaitGroup
+	// at most four lanes at a time: the verdicts use a wall-clock bound (the proxy's own
+	// clock drives probes and table rebuilds), so the machine must not be saturated
+	sem := make(chan struct{}, 4)
 	for l := 0; l < lanes; l++ {
 		wg.Add(1)
 		go func(l int) {
 			defer wg.Done()
+			sem <- struct{}{}
+			defer func() { <-sem }()
 			defer func() {
 				if r := recover(); r != nil {
 					if ie, ok := r.(infraErr); ok {
@@ -612,7 +636,7 @@ func c14lane(c *Check, rng *rand.Rand, lane, steps int, hooks, mode string) {
 		hitsFile = TmpRoot() + fmt.Sprintf("/hits%d", lane)
 		envv = []string{"RCPROXY_VERIF_POINTS=" + hooks, "RCPROXY_VERIF_HITS=" + hitsFile, fmt.Sprintf("RCPROXY_VERIF_SEED=%d", c.Seed+int64(lane))}
 	}
-	opt := EnvOpt{Masters: 4, Replicas: 1, Extra: 8, Cfg: ProxyCfg{Env: envv}, Mode: mode, NoWait: firstUnusable}
+	opt := EnvOpt{Masters: 4, Replicas: 1, Extra: 8, Cfg: ProxyCfg{Env: envv, LogLevel: os.Getenv("C14_LOGLEVEL")}, Mode: mode, NoWait: firstUnusable}
 	var gen *c14gen
 	firstKind := c14unusableKinds[lane%len(c14unusableKinds)]
 	opt.Topo = func(cl *Cluster) *Topo {
@@ -665,8 +689,32 @@ func c14lane(c *Check, rng *rand.Rand, lane, steps int, hooks, mode string) {
 	}
 	ref := c14interpret(gen.cur, known)
 	history := []string{"initial"}
+	// waitProbes waits until the proxy has received n answers to its topology probe from
+	// the generator installed last (the property speaks of replies the proxy received)
+	waitProbes := func(n int, max time.Duration) bool {
+		dl := time.Now().Add(max)
+		for env.Cl.ProbesServed() < n {
+			if time.Now().After(dl) || !env.P.Alive() {
+				return false
+			}
+			time.Sleep(20 * time.Millisecond)
+		}
+		return true
+	}
 	converge := func(t *Topo, ref *c14ref, kind string) bool {
-		deadline := time.Now().Add(10 * time.Second)
+		if !waitProbes(1, 12*time.Second) && env.P.Alive() {
+			c.Violate(Violation{Class: "topology-probe-stopped", Shape: kind,
+				Detail:  "no CLUSTER NODES probe reached any node within 12 s of a new description being served (nominal: one per second)",
+				Witness: map[string]interface{}{"history": history, "lane": lane, "delay_hooks": hooks}})
+			return false
+		}
+		bound := 10 * time.Second
+		if hooks != "" {
+			// the armed delay points add up to ~2.8 s per adopted description (and a rapid
+			// pair is two of them): with slow INFO replies (up to 2.7 s per unknown node and refresh) on top: one adoption can legitimately take ~10 s, a rapid pair twice that; what these lanes look for is a table that never converges
+			bound = 45 * time.Second
+		}
+		deadline := time.Now().Add(bound)
 		var mm []c14mismatch
 		for {
 			if !env.P.Alive() {
@@ -694,8 +742,8 @@ func c14lane(c *Check, rng *rand.Rand, lane, steps int, hooks, mode string) {
 			ds = append(ds, m.detail)
 		}
 		c.Violate(Violation{Class: "routing-not-converged:" + mm[0].what, Shape: shape,
-			Detail:  fmt.Sprintf("10 s after the nodes started serving the new description routing still differs from it: %s", mm[0].detail),
-			Witness: map[string]interface{}{"history": history, "description": t.Text(nil), "mismatches": ds}})
+			Detail:  fmt.Sprintf("%v after the proxy first received the new description routing still differs from it: %s", bound, mm[0].detail),
+			Witness: map[string]interface{}{"history": history, "description": t.Text(nil), "mismatches": ds, "lane": lane, "delay_hooks": hooks, "proxy_build": modeName(mode)}})
 		return false
 	}
 	c.Eval(1)
@@ -709,7 +757,8 @@ func c14lane(c *Check, rng *rand.Rand, lane, steps int, hooks, mode string) {
 			uk := c14unusableKinds[rng.Intn(len(c14unusableKinds))]
 			env.Cl.SetNodesReply(c14unusable(uk, gen.cur))
 			history = append(history, "unusable:"+uk)
-			time.Sleep(2500 * time.Millisecond)
+			waitProbes(2, 8*time.Second) // the proxy has received the unusable reply twice
+			time.Sleep(300 * time.Millisecond)
 			c.Eval(1)
 			c.Distinct("unusable:" + uk)
 			if !env.P.Alive() {
@@ -738,7 +787,16 @@ func c14lane(c *Check, rng *rand.Rand, lane, steps int, hooks, mode string) {
 			saved := gen.cur
 			gen.cur = nt
 			nt2, kind2 := gen.mutate(c14nextKind(rng))
-			if nref2 := c14interpret(nt2, nref.known); nref2 != nil {
+			// the proxy may or may not get to see the intermediate description: an address
+			// counts as newly discovered only if neither of the two previous ones had it
+			both := map[string]bool{}
+			for a := range ref.known {
+				both[a] = true
+			}
+			for a := range nref.known {
+				both[a] = true
+			}
+			if nref2 := c14interpret(nt2, both); nref2 != nil {
 				nt.Install(env.Cl)
 				time.Sleep(time.Duration(300+rng.Intn(900)) * time.Millisecond)
 				nt, nref, kind = nt2, nref2, kind+"+"+kind2+"(rapid)"
